@@ -815,6 +815,10 @@ class ConsumerGroup(Coordinator):
         all currently-held partition consumers will commit and close
         """
         log.debug("%s on_join_prepare", self)
+        if self._stop_in_progress:
+            # stop() has taken the consumers and is waiting for them. Hold the
+            # join until stop() leaves the group and cancels it.
+            return Deferred()
         return self.shutdown_consumers()
 
     def on_join_complete(self, assignments):
